@@ -297,8 +297,22 @@ def check_mutators(ctx):
         if cc.child_attr:
             child_attrs.add(cc.child_attr)
     inside = outside = 0
+    # helpers of the parser module that only the reducers call work on trees
+    # built during the same parse, like the reducers themselves
+    reducer_region = set()
+    for m in pstate.methods.values():
+        reducer_region |= set(prog.region(m))
+    called_elsewhere = set()
+    for g in prog.functions.values():
+        if g.qual in reducer_region:
+            continue
+        for _c, h in prog.callees(g):
+            called_elsewhere.add(h.qual)
     for f in prog.functions.values():
-        in_parser = f.cls is pstate
+        in_parser = f.cls is pstate or (
+            f.module is pstate.module and f.cls is None
+            and f.qual in reducer_region
+            and f.qual not in called_elsewhere)
         in_checks = f.module.name == CHECKS
         for n in walk_no_nested(f.node):
             if isinstance(n, ast.Call):
